@@ -71,6 +71,25 @@ check(
     "DESIGN.md section 3, C06",
 )
 
+check(
+    "C07",
+    "offline trace checker over the recorded event log (draw, attach masses, element enter/exit, deep-copy lineage) + forced-target black-box runs + exact float boundary replay",
+    "For every stochastic object of every observed generation the number of growth steps is compared with min{k: w_k - w0 > T}, T being the value the "
+    "distribution returned (wrapped) or a zero-width distribution forces (black box, units counted in the returned molecule); the comparison is also "
+    "run exactly at the boundary T = d_k / nextafter(d_k) with d_k recorded as the library computes it.",
+    "Held on the objects observed. Masses are RDKit HeavyAtomMolWt floats; growth vs capping attachments are told apart by object identity of the growing molecule (deep copies are provisional finalisations).",
+    "DESIGN.md section 3, C07",
+)
+check(
+    "C08",
+    "stateless exploration of all choice sequences with a scripted numpy Generator against the reference model's exact molecule distribution; in-situ law monitor on every rng.choice",
+    "For bounded instances of every archetype all choice sequences of the real generator are enumerated; the probability of every producible molecule "
+    "(sum of path probabilities per canonical SMILES) must equal the value the independent reference model computes from the notation (1e-9). On larger "
+    "random instances every decision's probability vector, candidate set (repeat units / end groups / list) and left-terminal weight transfer are checked in situ.",
+    "Exact for the enumerated instances only (counts in the evidence); trusts gbv/ref/model.py (selection law written from the statement, 500 lines) and RDKit canonical SMILES.",
+    "DESIGN.md section 3, C08",
+)
+
 ALL = [f"C{i:02d}" for i in range(1, 21)]
 
 
